@@ -34,7 +34,8 @@ Inductive appit :=
 Record resp := mkR { r_status : str; r_headers : hdrs; r_app : appit; r_cond : bool }.
 
 (* class attributes a subclass may override *)
-Record cfg := mkCfg { d_ctype : option str; d_charset : option str; d_cond : bool }.
+Record cfg := mkCfg { d_ctype : option str; d_charset : option str; d_cond : bool;
+                      d_benc : option str   (* default_body_encoding *) }.
 
 Definition chunks (a : appit) : list bytes :=
   match a with AList cs => cs | AIter _ cs => cs | ATuple cs => cs end.
@@ -206,7 +207,7 @@ Definition decode (name : str) (b : bytes) : res str :=
   | Some CAscii => if forallb is_ascii b then Ok b else Exc E_UDec
   end.
 
-Definition UTF8 := s2l "UTF-8".     (* default_body_encoding *)
+Definition UTF8 := s2l "UTF-8".     (* default_body_encoding as shipped *)
 
 (* ---------- status ---------- *)
 Inductive sarg := SInt (z : Z) | SStr (s : str).
@@ -361,7 +362,9 @@ Inductive op :=
 | OSetStatus (s : sarg)                     (* r.status = s *)
 | OSetLocation (v : option str)             (* r.location = v *)
 | OSetContentLength (n : option N)          (* r.content_length = n  (also the constructor's content_length=) *)
-| OCall (head : bool).                      (* r(environ, start_response), iterated and closed by the server *)
+| OCall (head : bool)                       (* r(environ, start_response), iterated and closed by the server *)
+| OMd5EtagOf (b : bytes) (set_md5 : bool)   (* r.md5_etag(body=b, set_content_md5=...): the body is not read *)
+| OSetCond (b : bool).                      (* r.conditional_response = b *)
 
 Definition vstr_list (l : list str) : val := VList (map VStr l).
 Definition vhdrs (h : hdrs) : val := VList (map (fun kv => VList [VStr (fst kv); VStr (snd kv)]) h).
@@ -401,20 +404,25 @@ Section Model.
              end
     end.
 
-  (* _text__get *)
+  (* self.charset or self.default_body_encoding; None: neither is set (AttributeError) *)
+  Definition text_encoding (h : hdrs) : option str :=
+    let cs := charset_of h in
+    if truthy cs then cs else if truthy (d_benc c) then d_benc c else None.
+
+  (* _text__get: the AttributeError comes before the body is read *)
   Definition get_text (r : resp) : resp * res str :=
-    let cs := charset_of (r_headers r) in
-    let decoding := if truthy cs then cs else Some UTF8 in
-    match get_body r with
-    | (r1, Exc e) => (r1, Exc e)
-    | (r1, Ok b) => (r1, match decoding with Some d => decode d b | None => Exc E_Attr end)
+    match text_encoding (r_headers r) with
+    | None => (r, Exc E_Attr)
+    | Some d =>
+        match get_body r with
+        | (r1, Exc e) => (r1, Exc e)
+        | (r1, Ok b) => (r1, decode d b)
+        end
     end.
 
   (* _text__set *)
   Definition set_text (t : str) (r : resp) : resp * option str :=
-    let cs := charset_of (r_headers r) in
-    let encoding := if truthy cs then cs else Some UTF8 in
-    match encoding with
+    match text_encoding (r_headers r) with
     | None => (r, Some E_Attr)
     | Some e => match encode e t with
                 | Exc x => (r, Some x)
@@ -496,6 +504,15 @@ Section Model.
               let '(h2, e2) := hset N_CMD5 d h1 in (with_headers r1 h2, e2)
             else (with_headers r1 h1, None)
         end
+    end.
+
+  (* md5_etag(body=b, set_content_md5): only headers change *)
+  Definition md5_etag_of (b : bytes) (set_md5 : bool) (h : hdrs) : hdrs * option str :=
+    let d := md5b64 b in
+    let '(h1, e1) := hset N_ETAG (etag_quote (strip_by (fun x => x =? 61) d)) h in
+    match e1 with
+    | Some e => (h1, Some e)
+    | None => if set_md5 then hset N_CMD5 d h1 else (h1, None)
     end.
 
   (* copy(): (the response itself afterwards, the new object or the exception of its constructor) *)
@@ -587,6 +604,8 @@ Section Model.
         | None => (cl_del r, VNone)
         end
     | OCall head => let k := call head r in (after k, vcalled k)
+    | OMd5EtagOf b m => let '(h, e) := md5_etag_of b m (r_headers r) in (with_headers r h, vnone_or_err e)
+    | OSetCond b => (mkR (r_status r) (r_headers r) (r_app r) b, VNone)
     end.
 
   Definition run_ops (ops : list op) (r : resp) : resp := fold_left (fun r o => fst (step r o)) ops r.
